@@ -322,6 +322,25 @@ def run(repo, rep):
         outp = [n_ for n_ in c2.nodes[3:] if n_.kind == "test" and "orig_tens in" in norm(n_.expr) and "output_tensors" in norm(n_.expr)]
         rep.check(len(outp) == 1 and any(isinstance(s, ast.Assign) and norm(s) == "new_tens.ifm_write_protected = True" for s in outp[0].stmt.body), "C03-f",
                   f"ethosu/vela/extract_npu_subgraphs.py:{fn}", "subgraph outputs are write protected", "")
+    # the table index an operator is given is computed in one unit: the path that loads a table and the path that re-uses a resident
+    # equal table must agree (index = SHRAM offset // slot size)
+    lu_ = repo.mod("lut")
+    oh = lu_.func("optimize_high_level_cmd_stream")
+    gi = lu_.func("get_lut_index")
+    divs = []
+    for fn_ in (oh, gi):
+        for b_ in ast.walk(fn_):
+            if isinstance(b_, ast.BinOp) and isinstance(b_.op, ast.FloorDiv) and ("lut_start" in str(norm(b_.left)) or "shram_lut_address" in str(norm(b_.left))):
+                d_ = b_.right
+                if isinstance(d_, ast.Name):
+                    one = [s_.value for s_ in ast.walk(fn_) if isinstance(s_, ast.Assign) and str(norm(s_.targets[0])) == d_.id]
+                    d_ = one[0] if len(one) == 1 else d_
+                divs.append((fn_.name, str(norm(d_)).replace("lut_tensor.", "").replace("lut_tens.", "")))
+    if len(divs) != 2:
+        raise AnalysisError(f"LUT index computations: {len(divs)} found (2 expected)")
+    rep.check(divs[0][1] == divs[1][1], "C03-f", "ethosu/vela/lut.py:optimize_high_level_cmd_stream / get_lut_index", "a loaded table and a re-used resident table get their index in the same unit",
+              f"{divs[0][0]} divides the SHRAM offset by `{divs[0][1]}`, {divs[1][0]} by `{divs[1][1]}`: a 1 KiB table at offset 1024 is index 4 when it is loaded and index 1 when an equal table re-uses it without a DMA "
+              "- the second operator reads SHRAM bytes that were never loaded (one of the two indices is wrong)")
     fu = lr.func("_get_ifm_to_fuse")
     # every way of choosing an input whose buffer the output takes over excludes write-protected inputs: the test(s) guarding
     # `ifm_tens = <tensor>` contain `not <tensor>.ifm_write_protected` (as a conjunct, or as a disjunct of a negated disjunction)
